@@ -36,6 +36,7 @@ type Config struct {
 	MaxPaths     int
 	MaxCex       int
 	PanicOK      bool              // panics are not violations (harness handles them itself)
+	UnwindCex    bool              // a step-budget overrun is a candidate counterexample (termination harnesses)
 	Setup        func(in *Interp)  // per worker, after creation
 	PathSetup    func(in *Interp)  // before every path
 	MaxValueFan  int               // maximum siblings for a value pick
@@ -83,6 +84,7 @@ type Report struct {
 	Samples     []PathSample
 	Steps       int64
 	Truncated   bool
+	UnwindCex   bool
 	SolverErrs  []string
 	CrossChecks int
 	CrossDiffs  []string
@@ -102,7 +104,7 @@ func (r *Report) problem(msg string) {
 
 // Inconclusive reports whether some path could not be decided.
 func (r *Report) Inconclusive() bool {
-	return r.Paths["unsupported"] > 0 || r.Paths["unwind"] > 0 || r.Paths["internal"] > 0 ||
+	return r.Paths["unsupported"] > 0 || (r.Paths["unwind"] > 0 && !r.UnwindCex) || r.Paths["internal"] > 0 ||
 		r.UnknownN > 0 || r.Truncated || len(r.SolverErrs) > 0 || len(r.CrossDiffs) > 0
 }
 
@@ -154,7 +156,7 @@ func Explore(p *Program, cfg Config) *Report {
 		cfg.MaxPaths = 2_000_000
 	}
 	if cfg.MaxCex == 0 {
-		cfg.MaxCex = 5
+		cfg.MaxCex = 12
 	}
 	if cfg.MaxValueFan == 0 {
 		cfg.MaxValueFan = 64
@@ -164,7 +166,7 @@ func Explore(p *Program, cfg Config) *Report {
 	}
 	x := &explorer{cfg: cfg, prog: p}
 	x.cond = sync.NewCond(&x.mu)
-	x.rep = &Report{Name: cfg.Name, Paths: map[string]int{}, Reached: map[string]int{},
+	x.rep = &Report{Name: cfg.Name, UnwindCex: cfg.UnwindCex, Paths: map[string]int{}, Reached: map[string]int{},
 		Functions: map[string]bool{}, Stubs: map[string]int{}}
 	x.work = []workItem{{}}
 	start := time.Now()
@@ -321,6 +323,10 @@ func (w *worker) runPath(item workItem) {
 			w.addCex(r, Cex{ID: "panic", Msg: msg, Inputs: pc.inputModel(), Stack: stack, Observed: in.Observed})
 		}
 	case "unsupported", "unwind", "internal":
+		if status == "unwind" && x.cfg.UnwindCex {
+			w.addCex(r, Cex{ID: "unwind", Msg: msg, Inputs: pc.inputModel(), Stack: stack, Observed: in.Observed})
+			break
+		}
 		r.problem(status + ": " + msg)
 		if os.Getenv("SYMGO_DEBUG") != "" {
 			fmt.Fprintf(os.Stderr, "[%s] %s: %s\n%s", x.cfg.Name, status, msg, stack)
@@ -339,7 +345,13 @@ func (w *worker) runPath(item workItem) {
 }
 
 func (w *worker) addCex(r *Report, c Cex) {
-	if len(r.Cex) < w.x.cfg.MaxCex {
+	same := 0
+	for _, o := range r.Cex {
+		if o.ID == c.ID {
+			same++
+		}
+	}
+	if same < 1 && len(r.Cex) < w.x.cfg.MaxCex {
 		r.Cex = append(r.Cex, c)
 	}
 	if w.x.cfg.StopOnCex {
